@@ -435,3 +435,20 @@ func FWriteAt[T interface {
 	post(e, err, false)
 	return n, err
 }
+
+// ExitHook, when set, observes a call to os.Exit made by the code under test
+// (internal/counter's debugFatalf ends the process with status 1 when it
+// believes the counter file is corrupt). The hook may panic with ExitPanic to
+// end just the calling virtual process.
+var ExitHook func(code int)
+
+type ExitPanic struct{ Code int }
+
+func (e ExitPanic) Error() string { return fmt.Sprintf("os.Exit(%d)", e.Code) }
+
+func OsExit(code int) {
+	if h := ExitHook; h != nil {
+		h(code)
+	}
+	os.Exit(code)
+}
